@@ -30,7 +30,7 @@ def variant_forms(rng, spec):
         if rng.random() < 0.5:
             a['_date_form'] = gen.pick(rng, ['datetime', 'timestamp', 'date'])
         if rng.random() < 0.3:
-            a['_container'] = gen.pick(rng, ['dtindex', 'array', 'list'])
+            a['_container'] = gen.pick(rng, ['dtindex', 'array', 'list', 'np_D', 'np_h', 'np_m', 'np_ns'])
     return spec
 
 
